@@ -55,12 +55,16 @@ ASSUMPTIONS = [
     'indications are always confirmed within 30 virtual seconds (behaviour after a transaction timeout is not judged)',
 ]
 MIN_EVENTS = {
-    'quick': {'requests_judged': 8000, 'non_requests_judged': 2500, 'unknown_opcodes_judged': 1500,
-              'mtu_checks': 8000, 'indications_seen': 60, 'notifications_seen': 100, 'opcodes_swept': 256,
-              'eatt_requests': 1500, 'server_pdus_exactly_mtu': 20},
-    'thorough': {'requests_judged': 100000, 'non_requests_judged': 30000, 'unknown_opcodes_judged': 15000,
-                 'mtu_checks': 100000, 'indications_seen': 700, 'notifications_seen': 1200, 'opcodes_swept': 2560,
-                 'eatt_requests': 15000, 'server_pdus_exactly_mtu': 200},
+    # counts on the unchanged tree are lower than on a fixed one: a bearer on which a request went
+    # unanswered is not used any further
+    'quick': {'requests_judged': 1800, 'requests_answered_once': 1500, 'non_requests_judged': 1700,
+              'unknown_opcodes_judged': 800, 'mtu_checks': 4000, 'indications_seen': 400, 'notifications_seen': 2000,
+              'opcodes_swept': 256, 'eatt_requests': 1800, 'server_pdus_exactly_mtu': 1400, 'sequences': 600,
+              'eatt_exchange_mtu_probes': 20},
+    'thorough': {'requests_judged': 18000, 'requests_answered_once': 15000, 'non_requests_judged': 17000,
+                 'unknown_opcodes_judged': 8000, 'mtu_checks': 40000, 'indications_seen': 4000,
+                 'notifications_seen': 20000, 'opcodes_swept': 2560, 'eatt_requests': 18000,
+                 'server_pdus_exactly_mtu': 14000, 'sequences': 6000, 'eatt_exchange_mtu_probes': 200},
 }
 CASE_TIMEOUT = 300
 
@@ -421,6 +425,20 @@ async def send_one(hs, bearer, pdu, label, trail, r, wait=True):
     trail.append((bearer.kind, pdu[0] if pdu else -1, label))
 
 
+async def eatt_exchange_mtu_probe(hs, g, rng, trail, r):
+    """The MTU exchange is not used on an enhanced bearer (Part G 5.3.1: its ATT_MTU is the minimum of
+    the two L2CAP MTU fields): whatever the server answers, its later PDUs on that bearer must
+    still fit."""
+    longs = [m for m in hs.models if m.value is not None and len(m.value) >= 100 and g.rclass(m) == 'allowed'
+             and m.kind == 'static']
+    for b in [x for x in hs.alive if x.kind == 'eatt']:
+        if longs and rng.random() < 0.7:
+            await send_one(hs, b, ra.exchange_mtu(rng.choice([185, 517, 65535])), 'on-enhanced-bearer', trail, r)
+            m = rng.choice(longs)
+            await send_one(hs, b, ra.read(m.handle), 'allowed', trail, r)
+            r.ev('eatt_exchange_mtu_probes')
+
+
 async def sweep_case(case, r: R):
     rng = random.Random(case['seed'])
     hs, bearers, enc, auth, info = await make_harness(case, r, rng)
@@ -450,6 +468,7 @@ async def sweep_case(case, r: R):
         await send_one(hs, bearer, ra.read(1), 'allowed', trail, r)
     # an empty ATT PDU has no opcode: nothing may come back
     await send_one(hs, hs.fixed, b'', 'empty-pdu', trail, r)
+    await eatt_exchange_mtu_probe(hs, g, rng, trail, r)
     await hs.finish()
     finish_case(case, r, hs, bearers, trail, info, enc, auth)
 
@@ -498,16 +517,7 @@ async def seq_case(case, r: R):
                            ' | '.join(f'[{l}]{p[:12].hex()}' for p, l in pdus))
             trail += [(bearer.kind, p[0] if p else -1, l) for p, l in pdus]
             i += k
-    # Exchange MTU is not allowed on an enhanced bearer (Part F 3.4.2): whatever the server
-    # answers, its later PDUs on that bearer must still fit the bearer's fixed ATT_MTU
-    longs = [m for m in hs.models if m.value is not None and len(m.value) >= 100 and g.rclass(m) == 'allowed']
-    for b in [x for x in hs.alive if x.kind == 'eatt']:
-        if longs and rng.random() < 0.6:
-            await send_one(hs, b, ra.exchange_mtu(rng.choice([185, 517, 65535])), 'on-enhanced-bearer', trail, r)
-            m = rng.choice(longs)
-            await send_one(hs, b, ra.read(m.handle), 'allowed', trail, r)
-            await send_one(hs, b, ra.read_multiple_variable([m.handle, m.handle]), 'all-allowed', trail, r)
-            r.ev('eatt_exchange_mtu_probes')
+    await eatt_exchange_mtu_probe(hs, g, rng, trail, r)
     await hs.finish()
     finish_case(case, r, hs, bearers, trail, info, enc, auth)
 
@@ -612,6 +622,7 @@ async def notify_case(case, r: R):
         for bb in bearers:
             bb.pairing.close(r, hs.ctx)
             bb.pairing.expected_server_initiated = 0
+    await eatt_exchange_mtu_probe(hs, Gen(rng, hs, enc, auth), rng, trail, r)
     await hs.finish()
     finish_case(case, r, hs, bearers, trail, info, enc, auth)
 
